@@ -666,7 +666,7 @@ type cvendor = { cv_name : bytes; cv_ident : bytes; cv_num : z;
 val cvendor_lt : cvendor -> cvendor -> bool
 
 val check_vendors :
-  bytes list -> bytes list -> gvendor list -> cvendor list res
+  bytes list -> bytes list -> bytes list -> gvendor list -> cvendor list res
 
 val ext_values : gvalue list -> (bytes * bytes) -> gvalue list
 
@@ -1105,6 +1105,8 @@ val parse_uint32 : z -> bytes -> z option
 val int32_body : bool -> bytes -> z option
 
 val parse_int32 : bytes -> z option
+
+val max_int : z
 
 val parse_oid_aux : bool -> z list -> bytes -> z list option
 
